@@ -44,6 +44,7 @@ def _fixture_c():
     E = {"file": f}
     E["sec"] = sec = f.create_section("sec", "t")
     E["prop"] = sec.create_property("p", [1, 2])
+    E["sprop"] = sec.create_property("s", ["t"])
     E["sub"] = sec.create_section("sub", "t")
     E["blk"] = blk = f.create_block("blk", "t")
     E["da"] = da = blk.create_data_array("da", "t", data=[1.0, 2.0, 3.0], label="l", unit="mV")
@@ -70,6 +71,10 @@ def _fixture_c():
         b2, b2.data_arrays["da"], b2.data_arrays["da2"], b2.tags["tg"], b2.multi_tags["mt"], b2.groups["grp"])
     E["sec_b"] = f.sections["sec"]
     E["prop_b"] = E["sec_b"].props["p"]
+    E["sprop_b"] = E["sec_b"].props["s"]
+    E["sdim_b"] = E["da_b"].dimensions[0]
+    E["rdim_b"] = E["da2_b"].dimensions[0]
+    E["setdim_b"] = E["da2_b"].dimensions[1]
     return E
 
 
@@ -295,6 +300,128 @@ def _ob_no_hidden_state(o2: int, ro: bool) -> bool:
     return _g(lambda: _state(again)) == reopened
 
 
+# ---------------------------------------------------------------------------
+# last write wins: an attribute written twice (through the same or through a second
+# long-lived handle) reads - through both handles and from a freshly opened file - as
+# the value written last.                                   PART = index into ATTRS
+# ---------------------------------------------------------------------------
+_STR = ["x", "", None, "\u00fc\u6f22", "a longer text"]
+_UNIT = ["mV", None, "ms", "kV"]
+_NUM = [1, 0.25, None, 2.5, 0, -3]
+_POS = [1, 0.25, 2.5, 2]
+_NUML = [[1, 2], [0.5, 1.5], [3], [0.25, 0.5, 0.75]]
+_NUML1 = [[1], [0.5], [3], [0.25]]
+_NUML1N = [[1], [0.5], None, [0.25]]
+_STRL = [["a"], ["\u00fc", ""], ["x", "y", "z"]]
+_UNITL = [["mV"], ["ms"], ["s"]]
+_INTL = [[7], [1, 2, 3], [5, 6]]
+_TXTL = [["v"], ["\u00fc", "w"], ["x", "y", "z"]]
+
+# (label, handle key A, handle key B, attribute, value table)
+ATTRS = [
+    ("da.label", "da", "da_b", "label", _STR), ("da.unit", "da", "da_b", "unit", _UNIT),
+    ("da.definition", "da", "da_b", "definition", _STR), ("blk.definition", "blk", "blk_b", "definition", _STR),
+    ("tag.definition", "tag", "tag_b", "definition", _STR), ("sec.repository", "sec", "sec_b", "repository", _STR),
+    ("sec.reference", "sec", "sec_b", "reference", _STR), ("prop.unit", "prop", "prop_b", "unit", _UNIT),
+    ("prop.definition", "prop", "prop_b", "definition", _STR), ("sdim.label", "sdim", "sdim_b", "label", _STR),
+    ("sdim.unit", "sdim", "sdim_b", "unit", _UNIT), ("rdim.label", "rdim", "rdim_b", "label", _STR),
+    ("rdim.unit", "rdim", "rdim_b", "unit", _UNIT),
+    ("da.expansion_origin", "da", "da_b", "expansion_origin", _NUM), ("sdim.offset", "sdim", "sdim_b", "offset", _NUM),
+    ("sdim.sampling_interval", "sdim", "sdim_b", "sampling_interval", _POS),
+    ("prop.uncertainty", "prop", "prop_b", "uncertainty", _NUM),
+    ("da.polynom_coefficients", "da", "da_b", "polynom_coefficients", _NUML),
+    ("tag.position", "tag", "tag_b", "position", _NUML1), ("tag.extent", "tag", "tag_b", "extent", _NUML1N),
+    ("rdim.ticks", "rdim", "rdim_b", "ticks", _NUML), ("setdim.labels", "setdim", "setdim_b", "labels", _STRL),
+    ("tag.units", "tag", "tag_b", "units", _UNITL), ("prop.values", "prop", "prop_b", "values", _INTL),
+    ("sprop.values", "sprop", "sprop_b", "values", _TXTL),
+]
+
+
+def _nv(v):
+    import numpy as np
+    if v is None or isinstance(v, str):
+        return v
+    if isinstance(v, (list, tuple, np.ndarray)):
+        return [_nv(x) for x in v]
+    if hasattr(v, "item"):
+        return v.item()
+    return v
+
+
+def _reads_as(got, want):
+    got, want = _nv(got), _nv(want)
+    if want == "" or want == []:
+        return got in ("", None, [], ())
+    if want is None:
+        return got is None or got == [] or got == ()
+    return got == want
+
+
+def _lww(E, reopen, ai, v1, v2, via2):
+    label, ka, kb, attr, table = ATTRS[ai]
+    a, b = E[ka], E[kb]
+    getattr(a, attr)
+    getattr(b, attr)                       # both handles have read the attribute before
+    first = _pick(table, v1)
+    second = _pick(table, v2)
+    try:
+        setattr(a, attr, first)
+    except Exception:  # noqa  (a refused value is C12's subject)
+        assume(False)
+    try:
+        setattr(b if via2 else a, attr, second)
+    except Exception:  # noqa
+        assume(False)
+    if not _reads_as(getattr(a, attr), second) or not _reads_as(getattr(b, attr), second):
+        return False
+    fresh = reopen()
+    fe = {"da": lambda: fresh.blocks["blk"].data_arrays["da"], "blk": lambda: fresh.blocks["blk"],
+          "tag": lambda: fresh.blocks["blk"].tags["tg"], "sec": lambda: fresh.sections["sec"],
+          "prop": lambda: fresh.sections["sec"].props["p"], "sprop": lambda: fresh.sections["sec"].props["s"],
+          "sdim": lambda: fresh.blocks["blk"].data_arrays["da"].dimensions[0],
+          "rdim": lambda: fresh.blocks["blk"].data_arrays["da2"].dimensions[0],
+          "setdim": lambda: fresh.blocks["blk"].data_arrays["da2"].dimensions[1]}[ka]()
+    return _reads_as(getattr(fe, attr), second)
+
+
+def _ob_last_write_wins(v1: int, v2: int, via2: bool) -> bool:
+    """
+    pre: 0 <= v1 < 6 and 0 <= v2 < 6
+    post: __return__
+    """
+    import nixio
+    E = _fixture()
+    return _lww(E, lambda: nixio.File(PATH, "r"), PART, v1, v2, via2)
+
+
+def _real_lww(args):
+    import os
+    import shutil
+    import tempfile
+    import nixio
+    global PATH
+    tmp = tempfile.mkdtemp(prefix="vf_c02_")
+    fakeh5.uninstall()
+    old = PATH
+    PATH = os.path.join(tmp, "t.nix")
+    try:
+        try:
+            E = _fixture_c()
+
+            def reopen():
+                E["file"].close()
+                return nixio.File(PATH, "r")
+            ok = _lww(E, reopen, PART, args["v1"], args["v2"], args["via2"])
+            return (not ok), {"attribute": ATTRS[PART][0], "holds_on_real_stack": ok}
+        except Exception:  # noqa
+            import traceback
+            return True, {"raised_on_real_stack": traceback.format_exc()[-600:]}
+    finally:
+        PATH = old
+        fakeh5.install()
+        shutil.rmtree(tmp, ignore_errors=True)
+
+
 def validate():
     return {"fakeh5_vs_h5py": fakeh5.validate_against_h5py()}
 
@@ -351,5 +478,15 @@ OBLIGATIONS = [
        outside="histories longer than two operations; operations outside the table; data frames; that "
                "libhdf5 persists what it was given (the real-stack replay does a real close + reopen)"),
 ]
+
+OBLIGATIONS.append(
+    Ob("last_write_wins", _ob_last_write_wins, timeout=600, partition=list(range(len(ATTRS))),
+       functions=["nixio.hdf5.h5group.H5Group.set_attr", "nixio.hdf5.h5group.H5Group.get_attr",
+                  "nixio.hdf5.h5group.H5Group.write_data", "nixio.data_array.DataArray.expansion_origin",
+                  "nixio.dimensions.SampledDimension.sampling_interval", "nixio.property.Property.values"],
+       replay=_real_lww,
+       outside="25 attributes (text, unit, number, number list, text list) of arrays, blocks, tags, sections, "
+               "properties and dimension descriptors; two writes from value tables of 3-6 entries (None, empty and "
+               "non-ASCII text, int then float); an empty text may read back as None"))
 
 ASSUMPTIONS = ["libhdf5 returns after reopening what was stored before closing (NOT decided)"]
